@@ -17,7 +17,10 @@ func InitGenesis(ctx sdk.Context, k keeper.Keeper, data types.GenesisState) {
 			k.SetRewardRule(ctx, pool.Id, r)
 		}
 		k.SetPool(ctx, pool)
-		if !k.Expired(ctx, pool) {
+		// Expired() treats a pool ending at the current height as expired unless it is
+		// already queued; on import the queue is empty, so compare the heights directly:
+		// a pool ending at this height is still to be closed by this block's end blocker
+		if ctx.BlockHeight() <= pool.EndHeight {
 			k.EnqueueActivePool(ctx, pool.Id, pool.EndHeight)
 		}
 	}
